@@ -2,6 +2,8 @@ mod acts;
 mod common;
 mod ledger;
 mod menu;
+mod probe_checks;
+mod probes;
 mod scen;
 
 use std::process::exit;
@@ -48,7 +50,8 @@ fn main() {
         exit(code);
     }
     let code = match prop.as_str() {
-        "C01" | "C02" | "C03" | "C05" | "C06" | "C07" | "C11" | "C15" | "C16" => ledger::run(&prop, thorough),
+        "C01" | "C02" | "C03" | "C05" | "C06" | "C07" | "C11" | "C15" => ledger::run(&prop, thorough),
+        "C08" | "C10" | "C16" | "C17" => probe_checks::run(&prop, thorough),
         _ => {
             println!("MACHINERY-ERROR: unknown property {prop}");
             2
@@ -60,5 +63,7 @@ fn main() {
 fn scenarios_for(prop: &str) -> Vec<scen::StakingScenario> {
     let mut v = ledger::scenarios(prop, false);
     v.extend(ledger::scenarios(prop, true));
+    v.extend(probe_checks::scenarios(prop, false));
+    v.extend(probe_checks::scenarios(prop, true));
     v
 }
